@@ -36,6 +36,8 @@ def engine(res, spec, tier, seed, extended=False):
         variants += [('batch', common + ['--batch', '--end-step', str(n)]), ('runner_step', common + ['--runner-step', '--end-step', str(n)])]
         # an end time that falls strictly inside the last step: the interval is covered by the same n steps
         variants += [('batch', common + ['--batch', '--end-step', str(n), '--end-offset', '7']), ('runner_step', common + ['--runner-step', '--end-step', str(n), '--end-offset', '7'])]
+        # two simulations in one process: the events of the second must not reach the first one's handlers
+        variants += [('then_another', common + ['--then-another'])]
         for name, extra in variants:
             jobs.append((sc, 0, n, extra))
         plan.append((sc, variants))
@@ -71,6 +73,8 @@ def engine(res, spec, tier, seed, extended=False):
             if err:
                 res.add_broken('harness', f'{vname} run failed ({name0})', err)
                 continue
+            if vname == 'then_another' and r.get('events_leaked'):
+                found('events_of_another_simulation_reach_this_runs_handlers', dict(r['events_leaked'], scenario=name0), sc, extra)
             if vname == 'runner_step' and len(r['fp']) != n:
                 found('runner_does_not_cover_exactly_the_interval', {'scenario': name0, 'steps_taken': len(r['fp']), 'expected': n}, sc, extra)
             if vname == 'batch' and len(r['events']) != n:
